@@ -50,7 +50,65 @@ impl FarmSim {
             }
             FOp::Config { which, value } => self.op_config(*which, *value, st),
             FOp::Bad(a, b) => self.op_bad(*a, *b, st),
+            FOp::Churn { user, lp, rounds, amount, emergency } => self.op_churn(*user, *lp, *rounds, *amount, *emergency, st),
         }
+    }
+
+    /// index value that makes the ordinary operations pick element k of n
+    fn idx_for(k: usize, n: usize) -> u16 {
+        (((k << 16) + n - 1) / n.max(1)).min(65535) as u16
+    }
+
+    fn op_churn(&mut self, user: u8, lp: u8, rounds: u8, amount: u128, emergency: bool, st: &mut Stats) -> Result<(), String> {
+        // prefer a user without open positions in that LP token (so that the exit is a full exit)
+        let lp_denom = self.lp(lp);
+        let mut user = user;
+        for d in 0..4u8 {
+            let u = self.user(user.wrapping_add(d));
+            if !self.l.open_positions_of(u.as_str()).iter().any(|p| p.lp == lp_denom) {
+                user = user.wrapping_add(d);
+                break;
+            }
+        }
+        let owner = self.user(user);
+        let before: std::collections::BTreeSet<String> = self.l.positions_of(owner.as_str()).iter().map(|p| p.id.clone()).collect();
+        self.op_open(user, lp, amount, DAY, None, None, st)?;
+        let id = match self.l.positions_of(owner.as_str()).iter().find(|p| !before.contains(&p.id)) {
+            Some(p) => p.id.clone(),
+            None => return Ok(()),
+        };
+        for _ in 0..rounds {
+            self.w.advance(DAY);
+            let all: Vec<String> = self.l.positions_of(owner.as_str()).iter().map(|p| p.id.clone()).collect();
+            let Some(k) = all.iter().position(|x| *x == id) else { return Ok(()) };
+            self.steps += 1;
+            self.op_expand_pos(0, user, Self::idx_for(k, all.len()), amount.max(1), st)?;
+        }
+        st.bump("long-lived position: topped up in >= 9 consecutive epochs without a claim");
+        // full exit
+        if emergency {
+            let all: Vec<String> = self.l.positions_of(owner.as_str()).iter().map(|p| p.id.clone()).collect();
+            let Some(k) = all.iter().position(|x| *x == id) else { return Ok(()) };
+            self.steps += 1;
+            self.op_withdraw_pos(user, Self::idx_for(k, all.len()), Some(true), false, None, st)?;
+        } else {
+            for claim_first in [false, true] {
+                let open: Vec<String> = self.l.open_positions_of(owner.as_str()).iter().map(|p| p.id.clone()).collect();
+                let Some(k) = open.iter().position(|x| *x == id) else { break };
+                self.steps += 1;
+                self.op_close_pos(user, Self::idx_for(k, open.len()), &None, claim_first, false, st)?;
+            }
+        }
+        if self.l.open_positions_of(owner.as_str()).iter().any(|p| p.id == id) {
+            return Ok(());
+        }
+        st.bump("long-lived position: full exit");
+        self.w.advance(DAY);
+        self.steps += 1;
+        self.op_open(user, lp, amount, DAY, None, None, st)?;
+        self.w.advance(DAY);
+        self.steps += 1;
+        self.op_open(user, lp, 1, DAY, None, None, st)
     }
 
     fn op_advance(&mut self, a: &Adv, st: &mut Stats) {
